@@ -148,7 +148,13 @@ class Survey:
                     if has_z:
                         d["z"] = "%.6f" % (z + pz)
                 a = {1: "z", 2: "xy", 3: "xyz"}[self.dim]
-                d["adj"] = a.upper() if p["con"] else a
+                if p["con"] is True:
+                    a = a.upper()
+                elif p["con"] == "z":
+                    a = a.replace("z", "Z")
+                elif p["con"] == "xy":
+                    a = a.replace("xy", "XY")
+                d["adj"] = a
             pts.append(d)
         clusters = []
         stations = []
@@ -388,6 +394,18 @@ def apply_edit(sv, e):
         sets = {1: ("A", "B"), 2: ("C", "D"), 3: ("A", "C", "D"), 4: ("A", "B", "C", "D"), 5: ("A", "D")}[e["s"]]
         for p in s.pts:
             p["con"] = p["id"] in sets
+    elif k == "MakeFree":
+        for i, p in enumerate(s.pts):
+            p["role"] = "unk"
+            m = e["s"]
+            p["con"] = {1: False, 2: i == 0, 3: i < 2, 4: True, 5: "z", 6: ("xy" if i < 2 else False)}[m]
+    elif k == "Isolate":
+        a = s.pts[0]
+        s.pts.append(dict(id="X", e=a["e"] + 120.0, n=a["n"] + 50.0, u=a["u"] + 3.0, role="unk", con=False, approx="given", pert=(0.0, 0.0, 0.0)))
+        s.names["X"] = "X"
+        s.obs.append(dict(t="distance", fr=a["id"], to="X", to2="", k=len(s.obs), fdh=0.0, tdh=0.0, swap=False, passive=False))
+        if e["s"] == 2 and s.dim == 3:
+            s.obs.append(dict(t="dh", fr=a["id"], to="X", to2="", k=len(s.obs), fdh=0.0, tdh=0.0, swap=False, passive=False))
     elif k == "AddConsistentObs":
         have = set((o["t"], o["fr"], o["to"], o["to2"]) for o in s.obs)
         extra = [o for o in s.allopt if (o["t"], o["from"], o["to"], o["to2"]) not in have][:e["s"]]
@@ -468,7 +486,7 @@ def check_law(A, B, e, law, svA, svB, report, tolc=3e-6):
                 if not rel(sa, sb, 5e-5, 1e-7):
                     report("obs_stdev", "stdev of adjusted %s: %r -> %r" % (key, sa, sb))
     # --- orientations
-    if law["obs"] in ("superset", "any"):
+    if law["obs"] in ("superset", "any") or law["coords"] == "datum":
         pass
     elif law["obs"] != "rotdir":
         for s_, v in A["ori"].items():
@@ -493,6 +511,8 @@ def check_law(A, B, e, law, svA, svB, report, tolc=3e-6):
             if abs(wrap200((w - v) - sgn * e["w"] / 1e4)) > 3e-7:
                 report("ori", "orientation of %s should shift by %g gon: %r -> %r" % (s_, sgn * e["w"] / 1e4, v, w))
     # --- covariance
+    if law["cov"] == "datum":
+        pass
     if law["cov"] in ("same", "perm", "axes"):
         scale = max([abs(v) for v in A["cov"].values()] + [1e-12])
         for key, v in A["cov"].items():
@@ -512,7 +532,7 @@ def check_law(A, B, e, law, svA, svB, report, tolc=3e-6):
             eb = B["ell"].get(pid)
             if eb is None:
                 continue
-            if not rel(ea["major"], eb["major"], 5e-5, 1e-9) or not rel(ea["minor"], eb["minor"], 5e-5, 1e-9):
+            if not rel(ea["major"], eb["major"], 5e-5, 1e-3) or not rel(ea["minor"], eb["minor"], 5e-5, 1e-3):
                 report("ellipse_axes", "ellipse of %s: semi-axes %r,%r -> %r,%r" % (pid, ea["major"], ea["minor"], eb["major"], eb["minor"]))
             elif ea["major"] > 1.001 * ea["minor"]:
                 # angle between the two physical lines
@@ -532,18 +552,13 @@ def check_law(A, B, e, law, svA, svB, report, tolc=3e-6):
             v = A["cov"].get(key)
             if v is not None and abs(v - w) > 5e-5 * scale:
                 report("cov", "covariance %s: %r (full) vs %r (band)" % (key, v, w))
-    if law["cov"] == "sigma" and svB.params["sigma-act"] == "apriori" and svA.params["sigma-act"] == "apriori":
-        r = (e["num"] / e["den"]) ** 2
-        for key, v in A["cov"].items():
-            w = B["cov"].get(key)
-            if w is not None and not rel(v * r, w, 5e-5, 1e-12):
-                report("sigma", "apriori covariance %s should scale by %g: %r -> %r" % (key, r, v, w))
-                break
-    if law["cov"] == "sigma" and svB.params["sigma-act"] == "aposteriori" and svA.params["sigma-act"] == "aposteriori":
+    if law["cov"] == "sigma" and svB.params["sigma-act"] == svA.params["sigma-act"]:
+        # weights scale with sigma-apr^2, cofactors with its inverse: covariances (m0^2 Q) do not depend on sigma-apr,
+        # neither with the a priori nor with the a posteriori reference deviation
         for key, v in A["cov"].items():
             w = B["cov"].get(key)
             if w is not None and not rel(v, w, 5e-5, 1e-12):
-                report("sigma", "aposteriori covariance %s must not depend on sigma-apr: %r -> %r" % (key, v, w))
+                report("sigma", "covariance %s must not depend on sigma-apr: %r -> %r" % (key, v, w))
                 break
 
 
